@@ -7,11 +7,13 @@
 import NutsModel.C02.Token
 import NutsModel.C02.History
 import NutsModel.C02.Jar
+import NutsModel.C02.Policy
 import NutsModel.Facts.C02
 import NutsProofs.Lemmas.C02
 import NutsProofs.Lemmas.C02b
 import NutsProofs.Lemmas.C02c
 import NutsProofs.Lemmas.C02d
+import NutsProofs.Lemmas.C02e
 
 namespace Nuts.C02.Props
 open Nuts.C02
@@ -1002,5 +1004,87 @@ example : (tokenEndpoint witnessCfg grantNamesToday (fun v => v) {} 100 "alpha" 
     (tokenEndpoint witnessCfg grantNamesToday (fun v => v) {} 100 "alpha" "VP_TOKEN-BEARER" witnessReq
       ⟨"", none, none, none, .absent, []⟩).2 = .err "unsupported_grant_type/not-supported" := by
   refine ⟨by decide, by decide⟩
+
+/-! ### Deepening round: where the configured definitions come from (policy/local.go) -/
+
+/-- `LocalPDP.Configure` / `loadFromDirectory` / `loadFromFile` as `configurePolicy` / `loadDir` / `addScopes` mirror
+    them: the conditions (directories skipped, the `.json` suffix test, an already mapped scope is an error), the ordered
+    calls, the suffix literal and the default directory -/
+theorem fact_policy_loader :
+    Facts.C02.condsPolicyConfigure =
+      ["b.config.Directory != \"\"", "err != nil",
+       "os.IsNotExist(err) && b.config.Directory == defaultConfig().Directory", "b.config.Directory != \"\"",
+       "b.loadFromDirectory(b.config.Directory); err != nil"] ∧
+    Facts.C02.condsPolicyLoadDir =
+      ["err != nil", "err != nil", "file.IsDir()", "!strings.HasSuffix(file.Name(), \".json\")", "err != nil"] ∧
+    Facts.C02.condsPolicyLoadFile =
+      ["err != nil", "err != nil", "err != nil", "b.mapping == nil", "b.mapping[scope]; exists"] ∧
+    Facts.C02.chainPolicyLoadDir =
+      ["Open", "defer{", "Close", "}", "Readdir", "for{", "IsDir", "HasSuffix", "Name", "loadFromFile", "Name", "}"] ∧
+    Facts.C02.chainPolicyLoadFile = ["Open", "defer{", "Close", "}", "ReadAll", "Unmarshal", "for{", "}"] ∧
+    Facts.C02.policySuffixCheck = ["file.Name()", "\".json\""] ∧
+    Facts.C02.policyDefaultConfig = ["Directory=\"./config/policy\""] := by decide
+
+/-- **configuration text → policy.** Whatever the directory holds and in whatever order it is listed: when the loader
+    succeeds, every `.json` file (not a directory) of the directory parsed, no scope is mapped by two of them, and the
+    definitions `PresentationDefinitions(scope)` answers are exactly the ones a loaded file maps that scope to - nothing
+    from files with another suffix or from sub directories, nothing dropped, nothing merged. -/
+theorem policy_load_exact (entries : List DirEntry) (pol : Policy) (h : loadDir [] entries = .ok pol) :
+    (∀ e ∈ entries, e.loaded = true → e.content ≠ none) ∧
+    (pol.map (·.1)).Nodup ∧
+    ∀ scope defs, lookupPolicy pol scope = some defs ↔
+      ∃ e ∈ entries, e.loaded = true ∧ ∃ l, e.content = some l ∧ (scope, defs) ∈ l := by
+  obtain ⟨hn, hall, hmem⟩ := loadDir_ok [] entries pol (by simp [KeysNodup]) h
+  refine ⟨hall, hn, ?_⟩
+  intro scope defs
+  rw [lookupPolicy_some_iff pol hn, hmem]
+  simp
+
+/-- **configuration text → token decision (end to end).** With the policy loaded from a directory, a 200 of the
+    vp_token-bearer grant implies that some `.json` file of that directory maps exactly the requested scope to a set of
+    definitions, that the submission's definition is one of them, and that the submission validates against it. -/
+theorem s2s_scope_comes_from_a_policy_file (cfg : Cfg) (entries : List DirEntry) (w w' : World) (now : Nat) (r : S2SReq)
+    (resp : TokenResponse) (hpol : loadDir [] entries = .ok cfg.policy)
+    (hchk : cfg.emptyVpChecked = true) (httl : cfg.nonceTtl ≠ 0) (hwf : ∀ vp ∈ r.vps, vp.signer ≠ some "")
+    (h : issueS2S cfg w now r = (w', .ok resp)) :
+    ∃ e ∈ entries, e.loaded = true ∧ ∃ file defs d, e.content = some file ∧ (r.scope, defs) ∈ file ∧
+      findDef defs r.subDefId = some d ∧ r.pex d.key = true := by
+  obtain ⟨s, d, hc, _⟩ := s2s_token_only_if cfg w w' now r resp hchk httl hwf h
+  obtain ⟨defs, hdefs, hfind⟩ := hc.scope
+  obtain ⟨e, he, hl, file, hfile, hmem⟩ := ((policy_load_exact entries cfg.policy hpol).2.2 r.scope defs).mp hdefs
+  exact ⟨e, he, hl, file, defs, d, hfile, hmem, hfind, hc.pex⟩
+
+/-- **a failed load is a refusal, for exactly two reasons**: a `.json` file that does not parse / validate, or a scope
+    that is already mapped -/
+theorem policy_load_error_kinds (m : Policy) (entries : List DirEntry) (x : String) (h : loadDir m entries = .err x) :
+    x = "unmarshal" ∨ x = "duplicate-scope" := by
+  induction entries generalizing m with
+  | nil => unfold loadDir at h; simp at h
+  | cons e rest ih =>
+    unfold loadDir at h
+    split at h
+    · exact ih m h
+    · split at h
+      · exact ih m h
+      · split at h
+        · simp only [Res.err.injEq] at h; exact .inl h.symm
+        · split at h
+          · exact ih _ h
+          · rename_i x' hadd
+            simp only [Res.err.injEq] at h
+            subst h
+            exact .inr (addScopes_err _ _ _ hadd)
+          · simp at h
+
+/-! non-vacuity: two files and a look-alike with another suffix load; the same scope in two `.json` files does not -/
+private def polA : DirEntry := ⟨"a.json", false, some [("care", [("organization", ⟨"pd1", 0⟩)])]⟩
+private def polB : DirEntry := ⟨"b.json", false, some [("zorg", [("organization", ⟨"pd2", 0⟩), ("user", ⟨"pd3", 0⟩)])]⟩
+private def polShadow : DirEntry := ⟨"a.json.bak", false, some [("care", [("organization", ⟨"shadow", 0⟩)])]⟩
+private def polDir : DirEntry := ⟨"sub.json", true, none⟩
+
+example : (loadDir [] [polShadow, polA, polDir, polB]).bind (fun p => .ok (lookupPolicy p "care", lookupPolicy p "x")) =
+    .ok (some [("organization", ⟨"pd1", 0⟩)], none) := by decide
+
+example : loadDir [] [polA, { polShadow with name := "c.json" }] = .err "duplicate-scope" := by decide
 
 end Nuts.C02.Props
